@@ -127,7 +127,7 @@ func c02Binds(c *Ctx) {
 		if tv := info.Types[s.RHS]; tv.Value != nil && tv.Value.ExactString() == `""` {
 			continue // clearing store
 		}
-		sel := s.LHS.(*ast.SelectorExpr)       // X.IP.PodID
+		sel := s.LHS.(*ast.SelectorExpr)                    // X.IP.PodID
 		ipSel, ok := ast.Unparen(sel.X).(*ast.SelectorExpr) // X.IP
 		if !ok {
 			c.Undec("C02.R2", "bind store shape", p.Pos(s.Node), fn.Key(), "", "store is not of the form <eniIP>.IP.PodID = …")
